@@ -26,7 +26,7 @@ func (c08) Gen(rng *rand.Rand, tier string, idx int) Case {
 		return c
 	}
 	// (size, slide): slide | size, slide ∤ size, slide = size, slide > size
-	pairs := [][2]int64{{2, 1}, {3, 2}, {5, 5}, {2, 3}, {7, 3}, {10, 5}, {4, 1}}
+	pairs := [][2]int64{{2, 1}, {3, 2}, {5, 5}, {2, 3}, {7, 3}, {10, 5}, {4, 1}, {14, 7}, {13, 7}, {11, 11}} // 7, 11: slides that do not divide a day (nor the distance between Go's zero time and the epoch)
 	p := pairs[rng.Intn(len(pairs))]
 	units := []int64{1, 10, 1000, 60_000_000_000}
 	u := units[rng.Intn(len(units))]
